@@ -350,6 +350,65 @@ def run_references(ctx, n):
     return count
 
 
+def run_reference_repeats(ctx):
+    """ONE CryptographyEngine for the whole pass (whatever it remembers between calls stays in play): for every key
+    derivation method and for MAC, a fixed argument tuple in which ONE argument at a time runs through its domain
+    (hash, iteration count incl. 1000 / 2048 / 10000, length, salt, key, data), every call made twice: each result
+    equals the independent reference for THAT tuple."""
+    from kmip.services.server.crypto import engine as ce
+    en = E()
+    eng = ce.CryptographyEngine()
+    r = random.Random(ctx.seed + 4242)
+    HN = {en.HashingAlgorithm.MD5: "md5", en.HashingAlgorithm.SHA_1: "sha1", en.HashingAlgorithm.SHA_224: "sha224",
+          en.HashingAlgorithm.SHA_256: "sha256", en.HashingAlgorithm.SHA_384: "sha384", en.HashingAlgorithm.SHA_512: "sha512"}
+    D = en.DerivationMethod
+
+    def rb(k):
+        return bytes(r.randrange(256) for _ in range(k))
+    base = {"h": en.HashingAlgorithm.SHA_256, "key": rb(16), "salt": rb(8), "it": 2048, "ln": 24, "msg": rb(20)}
+    domains = {"h": list(HN), "it": [1, 2, 999, 1000, 1001, 2048, 10000], "ln": [1, 16, 20, 24, 32, 64],
+               "salt": [rb(8), rb(8), rb(16)], "key": [rb(16), rb(16), rb(32)], "msg": [rb(20), rb(20), b""]}
+
+    def calls(a):
+        hn = HN[a["h"]]
+        yield ("PBKDF2", lambda: eng.derive_key(D.PBKDF2, a["ln"], key_material=a["key"], hash_algorithm=a["h"],
+                                                salt=a["salt"], iteration_count=a["it"]),
+               lambda: hashlib.pbkdf2_hmac(hn, a["key"], a["salt"], a["it"], a["ln"]))
+        # (the cryptography engine returns the whole digest; KmipEngine._process_derive_key truncates it)
+        yield ("HASH", lambda: eng.derive_key(D.HASH, a["ln"], derivation_data=a["msg"], hash_algorithm=a["h"]),
+               lambda: hashlib.new(hn, a["msg"]).digest())
+        yield ("HMAC", lambda: eng.derive_key(D.HMAC, a["ln"], derivation_data=a["msg"], key_material=a["key"],
+                                              hash_algorithm=a["h"], salt=a["salt"]),
+               lambda: ref_hkdf(hn, a["key"], a["salt"], a["msg"], a["ln"]))
+        yield ("NIST800_108_C", lambda: eng.derive_key(D.NIST800_108_C, a["ln"], derivation_data=a["msg"],
+                                                       key_material=a["key"], hash_algorithm=a["h"]),
+               lambda: ref_kbkdf_counter(hn, a["key"], a["msg"], a["ln"]))
+    n = 0
+    for _round in range(2):
+        for var, dom in domains.items():
+            for val in dom:
+                a = dict(base)
+                a[var] = val
+                for name, call, ref in calls(a):
+                    if name != "PBKDF2" and var == "it":
+                        continue
+                    for rep in range(2):
+                        n += 1
+                        try:
+                            got = call()
+                        except Exception as e:
+                            got = "%s: %s" % (type(e).__name__, e)
+                        want = ref()
+                        if got != want:
+                            ctx.report("c06:derive-differs-after-earlier-calls:%s" % name,
+                                       "%s with %s = %r (other arguments as in the calls before it, call %d of 2, round %d) "
+                                       "differs from the reference" % (name, var, val if not isinstance(val, bytes) else val.hex(),
+                                                                       rep + 1, _round + 1),
+                                       {"kind": "ref-repeats", "method": name, "varied": var})
+    ctx.coverage["reference_repeat_calls"] = n
+    return n
+
+
 def ref_cmac(alg, key, msg, bs):
     from cryptography.hazmat.primitives.ciphers import Cipher, algorithms, modes
     from cryptography.hazmat.backends import default_backend
@@ -698,7 +757,7 @@ def run(ctx):
     nplan, stats = run_plans(ctx)
     nseq = run_iv_sequences(ctx)
     npad = run_padding(ctx, 400 if ctx.tier == "quick" else 20000)
-    nref = run_references(ctx, 6 if ctx.tier == "quick" else 300)
+    nref = run_references(ctx, 6 if ctx.tier == "quick" else 300) + run_reference_repeats(ctx)
     nsig = run_gcm_and_sign(ctx, 20 if ctx.tier == "quick" else 500)
     nsrv = run_server(ctx, 2 if ctx.tier == "quick" else 40)
     import engine_check
